@@ -76,6 +76,9 @@ type histRun struct {
 	maybePending  map[int]map[string]bool
 	reqTarget     map[int]map[uint64]string // call/new requests → target rid
 	driftTag      map[string]string         // "cid rid" → known-finding tag of a counter seen off before
+	// ppoints: clock values at which the gateway was idle with at most service
+	// requests outstanding (everything published before has been processed)
+	ppoints []int64
 	stepNo        int
 	callSeq       int
 	closedAt      map[int]int64 // clock when a client was closed
@@ -316,6 +319,7 @@ func (h *histRun) settle() bool {
 				h.res.Inconclusive = "settle: " + err.Error()
 				return false
 			}
+			h.ppoints = append(h.ppoints, h.g.Clock.Tick())
 		}
 		r := h.pickOutstanding()
 		if r == nil {
@@ -333,6 +337,7 @@ func (h *histRun) settle() bool {
 	}
 	h.stat("quiescent_points", 1)
 	h.qpoints = append(h.qpoints, h.g.Clock.Tick())
+	h.ppoints = append(h.ppoints, h.qpoints[len(h.qpoints)-1])
 	for k := range h.maybePending {
 		h.maybePending[k] = map[string]bool{}
 	}
@@ -595,6 +600,8 @@ func (h *histRun) step() {
 	case "quiesce":
 		if err := h.g.Quiesce(QOpts{AllowOutstanding: true}); err != nil {
 			h.res.Inconclusive = "quiesce: " + err.Error()
+		} else {
+			h.ppoints = append(h.ppoints, h.g.Clock.Tick())
 		}
 	case "reset":
 		h.reset()
